@@ -394,6 +394,18 @@ func genRecs(r *rand.Rand, stages []LStage, max int) []LRec {
 	for _, s := range stages {
 		kinds[s.Kind] = true
 	}
+	// a third of the cases look like container logs: one or two streams whose records carry the same
+	// attributes (which a storage may hand out as one shared map)
+	var streams [][][2]string
+	if r.Intn(3) == 0 {
+		for k := 1 + r.Intn(2); k > 0; k-- {
+			var a [][2]string
+			for _, l := range distinctStrings(r, lgLabels, 1+r.Intn(3)) {
+				a = append(a, [2]string{l, pick(r, lgValues)})
+			}
+			streams = append(streams, a)
+		}
+	}
 	for i := range recs {
 		switch r.Intn(4) {
 		case 0:
@@ -418,8 +430,12 @@ func genRecs(r *rand.Rand, stages []LStage, max int) []LRec {
 			body = genLine(r)
 		}
 		rec := LRec{TS: ts, Body: body}
-		for _, l := range distinctStrings(r, lgLabels, r.Intn(4)) {
-			rec.Attrs = append(rec.Attrs, [2]string{l, pick(r, lgValues)})
+		if streams != nil {
+			rec.Attrs = append([][2]string{}, streams[r.Intn(len(streams))]...)
+		} else {
+			for _, l := range distinctStrings(r, lgLabels, r.Intn(4)) {
+				rec.Attrs = append(rec.Attrs, [2]string{l, pick(r, lgValues)})
+			}
 		}
 		recs[i] = rec
 	}
@@ -450,6 +466,7 @@ func genLogCase(r *rand.Rand, kinds []string, maxStages, maxRecs int) LogCase {
 		n := len(t.Recs)
 		t.Limit = pick(r, []int{-1, 0, 1, n - 1, n, n + 1, 2})
 	}
+	t.Share = r.Intn(2) == 0
 	return t
 }
 
